@@ -24,15 +24,18 @@ func findRangeIndexCell(fr *Frame, l *Loop) (int, bool) {
 
 // writeSet is what a region of code may modify.
 type writeSet struct {
-	all   bool
-	cells map[int]bool
-	keys  map[string]bool // whole heap components
-	iters map[ssa.Value]bool
-	why   []string
+	all      bool
+	cells    map[int]bool
+	keys     map[string]bool // whole heap components
+	iters    map[ssa.Value]bool
+	why      []string
+	callees  map[*ssa.Function]bool // static callees seen (write confinement)
+	allPlain bool                   // all was set by something else than a `* except T` contract
+	excepts  [][]string             // the type lists of the `* except` contracts that set all
 }
 
 func newWriteSet() *writeSet {
-	return &writeSet{cells: map[int]bool{}, keys: map[string]bool{}, iters: map[ssa.Value]bool{}}
+	return &writeSet{cells: map[int]bool{}, keys: map[string]bool{}, iters: map[ssa.Value]bool{}, callees: map[*ssa.Function]bool{}}
 }
 
 // rootOfAddr classifies the target of a store.
@@ -206,7 +209,7 @@ func (e *Engine) callWrites(fr *Frame, cc *ssa.CallCommon, ws *writeSet, depth i
 	if cc.IsInvoke() {
 		key := e.invokeKey(cc)
 		if c := e.db.Contracts[key]; c != nil {
-			e.contractWrites(c, ws, cc.Signature(), true, cc.Value.Type())
+			e.contractWrites(c, ws, cc.Signature(), true, cc.Value.Type(), cc)
 			return
 		}
 		if noEffect(key) {
@@ -229,20 +232,23 @@ func (e *Engine) callWrites(fr *Frame, cc *ssa.CallCommon, ws *writeSet, depth i
 		}
 		return
 	case *ssa.Function:
+		ws.callees[fv] = true
 		e.funcWrites(fr, fv, cc, ws, depth, seen)
 		return
 	case *ssa.MakeClosure:
+		ws.callees[fv.Fn.(*ssa.Function)] = true
 		e.funcWrites(fr, fv.Fn.(*ssa.Function), cc, ws, depth, seen)
 		return
 	}
 	// function value: unknown closure -> if a MakeClosure in this function produced it we cannot tell; be conservative
-	ws.all = true
+	ws.all, ws.allPlain = true, true
 	ws.why = append(ws.why, "call through function value "+cc.Value.Name())
 }
 
-func (e *Engine) contractWrites(c *Contract, ws *writeSet, sig *types.Signature, invoke bool, recvT types.Type) {
+func (e *Engine) contractWrites(c *Contract, ws *writeSet, sig *types.Signature, invoke bool, recvT types.Type, cc *ssa.CallCommon) {
 	// parameter name -> static type, for object-level items
 	ptype := map[string]types.Type{}
+	pdyn := map[string]types.Type{} // parameter name -> type boxed into the interface argument at this call site
 	if sig != nil {
 		names := e.paramNames(c, sig, invoke)
 		var pts []types.Type
@@ -258,6 +264,17 @@ func (e *Engine) contractWrites(c *Contract, ws *writeSet, sig *types.Signature,
 			if i < len(pts) {
 				ptype[n] = pts[i]
 			}
+			if cc != nil {
+				j := i
+				if invoke {
+					j = i - 1
+				}
+				if j >= 0 && j < len(cc.Args) && len(names) == len(cc.Args)+btoi(invoke) {
+					if mi, ok := cc.Args[j].(*ssa.MakeInterface); ok {
+						pdyn[n] = mi.X.Type()
+					}
+				}
+			}
 		}
 	}
 	for _, m := range c.Modifies {
@@ -270,7 +287,12 @@ func (e *Engine) contractWrites(c *Contract, ws *writeSet, sig *types.Signature,
 					e.objectWrites(t, ws)
 					continue
 				case "dyn", "dynfresh":
-					ws.all = true
+					if dt, ok := pdyn[arg]; ok {
+						// the object boxed at this call site: json.Unmarshal(data, &x) writes x
+						e.objectWrites(dt, ws)
+						continue
+					}
+					ws.all, ws.allPlain = true, true
 					ws.why = append(ws.why, "dyn() item of "+c.Key)
 					continue
 				case "big":
@@ -299,12 +321,13 @@ func (e *Engine) contractWrites(c *Contract, ws *writeSet, sig *types.Signature,
 		}
 		switch {
 		case m == "*":
-			ws.all = true
+			ws.all, ws.allPlain = true, true
 			ws.why = append(ws.why, "modifies * of "+c.Key)
 		case m == "big":
 			ws.keys["BigVal"] = true
 		case strings.HasPrefix(m, "* except "):
 			ws.all = true
+			ws.excepts = append(ws.excepts, exceptTypes(m))
 			ws.why = append(ws.why, "modifies "+m+" of "+c.Key)
 		case m == "syncmaps":
 			domS, valS := smSorts()
@@ -314,8 +337,8 @@ func (e *Engine) contractWrites(c *Contract, ws *writeSet, sig *types.Signature,
 				}
 				ws.keys[k] = true
 			}
-		case m == "ghosts":
-			for name := range e.db.Ghosts {
+		case m == "ghosts" || strings.HasPrefix(m, "ghosts except "):
+			for _, name := range e.ghostNames(m) {
 				ws.keys["G:"+name] = true
 			}
 		default:
@@ -341,7 +364,7 @@ func (e *Engine) contractWrites(c *Contract, ws *writeSet, sig *types.Signature,
 					continue
 				}
 			}
-			ws.all = true
+			ws.all, ws.allPlain = true, true
 			ws.why = append(ws.why, fmt.Sprintf("modifies item %q of %s not resolvable statically", m, c.Key))
 		}
 	}
@@ -355,7 +378,7 @@ func (e *Engine) funcWrites(fr *Frame, fn *ssa.Function, cc *ssa.CallCommon, ws 
 	}
 	c := e.db.Contracts[key]
 	if c != nil && !c.Inline && fn.Parent() == nil {
-		e.contractWrites(c, ws, fn.Signature, false, nil)
+		e.contractWrites(c, ws, fn.Signature, false, nil, cc)
 		return
 	}
 	if e.inRepo(fn) && depth < maxInlineDepth && !seen[fn] {
@@ -455,7 +478,11 @@ func (e *Engine) loopEnter(fr *Frame, st *State, l *Loop) {
 	e.blocksWrites(fr, e.loopBlocksSorted(l), ws, fr.depth, map[*ssa.Function]bool{})
 	var autoFrame []string
 	if ws.all {
+		restore := e.spareForWrites(st, ws)
+		restore2 := e.spareExcepted(st, ws)
 		st.havocAll()
+		restore()
+		restore2()
 		for k := range ws.keys {
 			if strings.HasPrefix(k, "G:") {
 				st.havocKey(k) // havocAll spares ghosts: those the loop may write are named in the write set
@@ -628,4 +655,64 @@ func regKey(key string, l leaf, depth int) string {
 		noteLeaf(key, l)
 	}
 	return key
+}
+
+func btoi(b bool) int {
+	if b {
+		return 1
+	}
+	return 0
+}
+
+// spareExcepted: when the only reason a loop may write the whole heap is callees with `modifies * except T...`
+// contracts, the fields of the types every one of them excepts (and that the loop does not store to itself)
+// keep their values.
+func (e *Engine) spareExcepted(st *State, ws *writeSet) func() {
+	if ws.allPlain || len(ws.excepts) == 0 {
+		return func() {}
+	}
+	count := map[string]int{}
+	for _, l := range ws.excepts {
+		seen := map[string]bool{}
+		for _, t := range l {
+			if !seen[t] {
+				seen[t] = true
+				count[t]++
+			}
+		}
+	}
+	keepH := map[string]*Term{}
+	keepV := map[string]int{}
+	for tn, n := range count {
+		if n != len(ws.excepts) {
+			continue
+		}
+		i := strings.LastIndex(tn, ".")
+		if i < 0 {
+			continue
+		}
+		T := e.lookupType(tn[:i], tn[i+1:], nil)
+		if T == nil {
+			continue
+		}
+		for _, l := range leaves(T) {
+			k := fieldKey(T, l.path)
+			if ws.keys[k] {
+				continue
+			}
+			noteLeaf(k, l)
+			keepH[k] = st.heapGet(k, arrSort(SInt, l.sort))
+			if id, ok := st.hv[k]; ok {
+				keepV[k] = id
+			}
+		}
+	}
+	return func() {
+		for k, v := range keepH {
+			st.heap[k] = v
+		}
+		for k, v := range keepV {
+			st.hv[k] = v
+		}
+	}
 }
